@@ -380,7 +380,7 @@ def vary(rng, c):
         if f == 'seed':
             d['seed'] = rnd_seed(rng)
         elif f == 'rate':
-            d['rate'] = other(rng, [0.3, 7.0, 100.0, 100.7, 1234.5], c['rate'])
+            d['rate'] = other(rng, [0.3, 7.0, 100.0, 100.7, 1234.5, 2.9999999, 16777217.0, 999.99999], c['rate'])
         else:
             d['fpn'] = other(rng, [0.0, 0.1, 0.25, 0.4], c['fpn'])
     return d
@@ -431,6 +431,36 @@ def sequences(rng, tier):
             if op == 'ps' and q < nsub:
                 c['subprocess'] = True
             yield c
+
+
+def edge_value(rng, lo_ok=True):
+    """values at the edges of float32 / float64 resolution: just below / above whole numbers, above 2**24, 2**31 and near
+    2**53, tiny positive values (a computation done in single precision, or rounded early, moves them across an integer)"""
+    k = float(rng.choice([1, 2, 3, 7, 50, 100, 1000, 4096, 65536, 10 ** 6]))
+    t = rng.randrange(12)
+    if t == 0:
+        return k - 1e-7
+    if t == 1:
+        return k + 1e-7
+    if t == 2:
+        return k - 2.0 ** -20
+    if t == 3:
+        return k + 2.0 ** -20
+    if t == 4:
+        return k * (1 - 2.0 ** -24)
+    if t == 5:
+        return k * (1 + 2.0 ** -24)
+    if t == 6:
+        return float(np.nextafter(k, 0))              # one double ulp below a whole number
+    if t == 7:
+        return rng.choice([16777217.0, 16777219.0, 33554433.0, 123456789.0, 2.0 ** 24 + 1.5])
+    if t == 8:
+        return rng.choice([2.0 ** 31 + 1, 4.0e9 + 1, 2.0 ** 32 + 3, 2.0 ** 40 + 1])
+    if t == 9:
+        return rng.choice([2.0 ** 53 - 1, 2.0 ** 53, 2.0 ** 52 + 0.5, 2.0 ** 53 + 2])
+    if t == 10 and lo_ok:
+        return rng.choice([1e-300, 5e-324, 1e-9, 2.0 ** -30, 0.9999999, 0.99999999999])
+    return rng.choice([2.9999999, 49.999999, 999.99999, 9.99999999, 255.9999999])
 
 
 def rnd_dtype(rng):
@@ -485,20 +515,29 @@ def generate(rng, tier):
         for method in ('poisson', 'gaussian'):
             n, m = rnd_shape(rng)
             c = {'op': 'shot', 'method': method, 'seed': rnd_seed(rng), 'img': rnd_counts(rng, n, m, method)}
+            if rng.random() < 0.3:
+                for _q in range(rng.randint(1, 2)):
+                    c['img'][rng.randrange(n)][rng.randrange(m)] = edge_value(rng)
             if rng.random() < 0.06:
                 c['img'] = c['img'][0][0]          # 0-d input
             yield c
     for _ in range(k):        # read noise
         n, m = rnd_shape(rng)
         img = [[rng.choice([0.0, float(rng.randint(-5, 200)), rng.random() * 1000]) for _ in range(m)] for _ in range(n)]
-        yield {'op': 'read', 'seed': rnd_seed(rng), 'img': img,
-               'electrons': rng.choice([0.0, 1.0, 2.5, 10.0, 100.0, rng.random() * 50])}
+        el = rng.choice([0.0, 1.0, 2.5, 10.0, 100.0, rng.random() * 50])
+        if rng.random() < 0.3:
+            el = edge_value(rng)
+        if rng.random() < 0.3:
+            img[rng.randrange(n)][rng.randrange(m)] = edge_value(rng)
+        yield {'op': 'read', 'seed': rnd_seed(rng), 'img': img, 'electrons': el}
     for _ in range(k):        # dark current
         n, m = rnd_shape(rng)
         t = rng.random()
         fpn = 0.0 if t < 0.35 else (rng.choice([0.1, 0.25, 0.4, 1.0, rng.random()]) if t < 0.9 else -rng.random())
         rate = rng.choice([0.0, 0.3, 1.0, 7.0, 100.0, 100.7, 1234.5, float(rng.randint(0, 10 ** 6)) / 64, rng.random() * 500,
                            -2.5])
+        if rng.random() < 0.4:
+            rate = edge_value(rng)
         yield {'op': 'dark', 'seed': rnd_seed(rng), 'rate': rate, 'shape': [n, m] if rng.random() < 0.93 else None, 'fpn': fpn}
     for _ in range(k):        # power spectrum
         n, m = rnd_shape(rng, 9 if tier == 'quick' else 12)
@@ -515,7 +554,8 @@ def generate(rng, tier):
         yield {'op': 'ps', 'seed': rnd_seed(rng), 'mask': mask,
                'mask_dtype': rng.choice(MASK_DTYPES),
                'pixelscale': rng.choice([1.0, 1 / 64, 1 / 256, 0.01, rng.random() + 0.01]),
-               'rms': rng.choice([1.0, 50e-9, 25e-9, 2.5, 0.0, -3e-8, rng.random()]),
+               'rms': rng.choice([1.0, 50e-9, 25e-9, 2.5, 0.0, -3e-8, rng.random(), 1e-140, 1e140, 1 - 2.0 ** -24,
+                                  16777217.0, 2.9999999]),
                'hpf': rng.choice([1.0, 5.0, 8.0, 20.0, rng.random() * 30 + 0.1]),
                'exp': rng.choice([1.0, 2.0, 3.0, 2.5, 11 / 3])}
     for _ in range(max(k // 4, 8)):     # rule07_dark_current: the same dark frame behind a rate formula (oracle only)
